@@ -206,3 +206,12 @@ Proof.
     assert (0 <= sin (PI / (2 * NR r)) * rsum (fun j => sin (alpha r j) + sin (alpha r (j + 1))) (nseq (r - 2)))
       by (apply Rmult_le_pos; lra). lra.
 Qed.
+
+Theorem hemi_all_faces_outward : forall r c rad y, (2 <= r)%N -> (3 <= c)%N -> 0 < rad -> 0 < y ->
+  hemi_trisR r c rad = map (hemi_triR r c rad) (sph_ps r c) /\
+  (forall p, In p (sph_ps r c) -> is_base p = false -> rfaces_away rzero (hemi_triR r c rad p)) /\
+  (forall i, (i < c)%N -> rfaces_away (0, y, 0) (hemi_triR r c rad (TF i))).
+Proof.
+  intros r c rad y Hr Hc Hrad Hy. split; [apply hemi_trisR_eq; lia|].
+  split; [apply hemi_dome_faces_outward; assumption|apply hemi_base_faces_down; assumption].
+Qed.
